@@ -1,6 +1,5 @@
 (* C18 — optional fields vanish quietly; required ones fail loudly and by name. *)
 From Connectome Require Import Values NameSet NameLevel NameFacts.
-From Connectome Require BagGen OptGen.
 Local Open Scope list_scope.
 
 (* the state of a field after compilation: available iff it reaches no missing input; dropped quietly iff it misses some
@@ -49,9 +48,11 @@ Example C18_example :
 Proof. vm_compute. auto. Qed.
 Print Assumptions C18_example.
 
-(* The name-level model (Model/NameLevel.v) mirrors connect_bags / normalize_bag (containers/base.py), detect_optionals (containers/reversible.py) and GraphCompiler._validate_optionals / compile (engine/compiler.py) and is compared with real layer stacks.
-   The fingerprints (sha256 of the normalised body) are regenerated on every run; an edit of one of these functions re-opens this property
-   even if no sampled case shows a difference. *)
+(* BEGIN PINNED FINGERPRINTS (tools/pin_shapes.py) *)
+(* The functions and classes of /repo that hand-written parts of the model mirror (Model/VM.v, NameLevel.v, Loopback.v) and the glue around the modelled core
+   this property is anchored in: the fingerprints (sha256 of the normalised source, comments and docstrings dropped) are regenerated on every run; an edit of one
+   of them re-opens this property even if no sampled case shows a difference.  Rewritten by tools/pin_shapes.py on a tree on which every check passes. *)
+From Connectome Require BagGen OptGen GlueFilterGen GlueJoinGen.
 Theorem C18_mirrored_functions_are_the_pinned_ones :
   BagGen.shape_connect_bags = "330bc8a991173b73" /\
   BagGen.shape_normalize_bag = "7cd93bd3cd2ed163" /\
@@ -61,6 +62,16 @@ Theorem C18_mirrored_functions_are_the_pinned_ones :
   OptGen.shape_ReversibleContainer_init = "ba8f9a40e072da46" /\
   OptGen.shape_GraphCompiler_priv_validate_optionals = "1241e86a2e7f8c0d" /\
   OptGen.shape_GraphCompiler_compile = "2efea2ce0a0eabd1" /\
-  OptGen.shape_GraphCompiler_priv_compile = "6acf060d491e1349".
+  OptGen.shape_GraphCompiler_priv_compile = "6acf060d491e1349" /\
+  GlueFilterGen.shape_class_Filter = "e202343ff78dfd1d" /\
+  GlueFilterGen.shape_class_CheckIds = "a921031238182021" /\
+  GlueJoinGen.shape_class_Join = "c2f4cf07b56e234c" /\
+  GlueJoinGen.shape_class_JoinContainer = "dc09c49ad7a5ba2d" /\
+  GlueJoinGen.shape_class_SwitchBranch = "202ea87a164ad799" /\
+  GlueJoinGen.shape_class_SwitchMissing = "09b9278b99ce6ff8" /\
+  GlueJoinGen.shape_priv_maybe_to_hash_id = "80d34b70d13b1b9d" /\
+  GlueJoinGen.shape_to_hash_id = "501cde71d807429e" /\
+  GlueJoinGen.shape_priv_chain_edges = "f009adada3e3a857".
 Proof. repeat split; reflexivity. Qed.
 Print Assumptions C18_mirrored_functions_are_the_pinned_ones.
+(* END PINNED FINGERPRINTS *)
